@@ -662,6 +662,75 @@ func runC02(c *Ctx) {
 			c.info("C02-R7", "cmd/glyph#body-methods", token.NoPos, "request-method tests not found in both handlers")
 		}
 	}
+	// both handlers bind the same projection of a header that was sent on several lines
+	{
+		proj := func(root *ssa.Function) (map[string]bool, int) {
+			out := map[string]bool{}
+			n := 0
+			for _, fn := range withAnon(root) {
+				eachInstr(fn, func(_ *ssa.BasicBlock, _ int, ins ssa.Instruction) {
+					rg, ok := ins.(*ssa.Range)
+					if !ok || !typeIs(rg.X.Type(), "net/http", "Header") {
+						return
+					}
+					var vals []ssa.Value
+					for _, r := range refs(rg) {
+						if nx, ok := r.(*ssa.Next); ok {
+							vals = append(vals, extractOf(nx, 2)...)
+						}
+					}
+					isVals := func(v ssa.Value) bool {
+						for _, x := range vals {
+							if v == x {
+								return true
+							}
+						}
+						return false
+					}
+					eachInstr(fn, func(_ *ssa.BasicBlock, _ int, i2 ssa.Instruction) {
+						mu, ok := i2.(*ssa.MapUpdate)
+						if !ok || !derivesFrom(mu.Value, isVals) {
+							return
+						}
+						n++
+						derivesFrom(mu.Value, func(v ssa.Value) bool {
+							switch x := v.(type) {
+							case *ssa.IndexAddr:
+								if isVals(x.X) {
+									if k, ok := constInt(x.Index); ok {
+										out["element "+itoa(int(k))] = true
+									} else {
+										out["element i"] = true
+									}
+								}
+							case *ssa.Call:
+								for _, a := range x.Call.Args {
+									if isVals(a) {
+										out[short(callName(x))] = true
+									}
+								}
+							}
+							return false
+						})
+					})
+				})
+			}
+			return out, n
+		}
+		var a, b map[string]bool
+		var na, nb int
+		if f := c.fn(glyphCmd, "createCompiledRouteHandler"); f != nil {
+			a, na = proj(f)
+		}
+		if f := c.fn(glyphCmd, "executeRoute"); f != nil {
+			b, nb = proj(f)
+		}
+		if na > 0 && nb > 0 {
+			c.ob("C02-R7", "cmd/glyph#repeated-header-projection-agrees", token.NoPos, setStr(a) == setStr(b), "for a header sent on several lines the compiled handler binds {"+setStr(a)+"} of its values and the interpreted path {"+setStr(b)+"}: a route reading headers[\"X-Forwarded-For\"] sees \"10.0.0.7, 192.168.1.1\" in one engine and \"10.0.0.7\" in the other")
+		} else {
+			c.info("C02-R7", "cmd/glyph#header-binding", token.NoPos, "header binding loops not found in both handlers: "+itoa(na)+"/"+itoa(nb))
+		}
+	}
 	// every Go type the shared query processing can put into the query object has an arm in the VM value conversion
 	if iv := c.fn(glyphCmd, "interfaceToValue"); iv != nil {
 		arms := map[string]bool{}
